@@ -276,7 +276,7 @@ package gozxing
 // beyond width are padding); wfBM is the representation invariant; padBM says the padding is zero
 // (GetEnclosingRectangle, GetTopLeftOnBit, GetBottomRightOnBit and Rotate180 scan whole words and rely on it).
 
-//@ spec func mget(m *BitMatrix, x int, y int) bool = (m.bits[y*m.rowSize + x/32] >> uint(x%32)) & 1 == 1
+//@ spec func mget(m *BitMatrix, x int, y int) bool = wordbit(m.bits[y*m.rowSize + x/32], x%32)
 //@ pred wfBM(m *BitMatrix) = m.width >= 1 && m.height >= 1 && m.width <= 1<<20 && m.height <= 1<<20 && m.rowSize == (m.width+31)/32 && len(m.bits) == m.rowSize*m.height
 //@ pred padBM(m *BitMatrix) = forall x int, y int :: m.width <= x && x < m.rowSize*32 && 0 <= y && y < m.height ==> !mget(m, x, y)
 //@ pred inBM(m *BitMatrix, x int, y int) = 0 <= x && x < m.rowSize*32 && 0 <= y && y < m.height
@@ -284,16 +284,30 @@ package gozxing
 // index of word c of row y lies inside the rs*h words of the matrix (the one non-linear fact needed)
 //@ lemma rowIdx(y int, h int, rs int, c int)
 //@   property C16
+//@   opt nia=on
 //@   requires 0 <= y && y < h && 0 <= c && c < rs
 //@   ensures 0 <= y*rs + c && y*rs + c < rs*h && y*rs <= y*rs + c
 //@ pred widx(m *BitMatrix, x int, y int) = hint(rowIdx(y, m.height, m.rowSize, x/32))
+// two cells share a word only if they are in the same row and the same word column
+//@ lemma rowIdxInj(y1 int, c1 int, y2 int, c2 int, rs int)
+//@   property C16
+//@   opt nia=on
+//@   requires 0 <= y1 && 0 <= y2 && 0 <= c1 && c1 < rs && 0 <= c2 && c2 < rs && y1*rs + c1 == y2*rs + c2
+//@   ensures y1 == y2 && c1 == c2
+//@ pred winj(m *BitMatrix, x1 int, y1 int, x2 int, y2 int) = hint(rowIdxInj(y1, x1/32, y2, x2/32, m.rowSize))
+//@ lemma mulBound(a int, b int, ma int, mb int)
+//@   property C16
+//@   opt nia=on
+//@   requires 0 <= a && a <= ma && 0 <= b && b <= mb
+//@   ensures 0 <= a*b && a*b <= ma*mb
 
 //@ func NewBitMatrix(width int, height int) (r *BitMatrix, e error)
 //@   property C16
 //@   requires width <= 1<<20 && height <= 1<<20
+//@   use mulBound((width+31)/32, height, 32768, 1048576)
 //@   ensures (width < 1 || height < 1) ==> r == nil && e != nil
 //@   ensures !(width < 1 || height < 1) ==> e == nil && r != nil && fresh(r) && wfBM(r) && r.width == width && r.height == height
-//@   ensures !(width < 1 || height < 1) ==> forall x int, y int :: inBM(r, x, y) ==> !mget(r, x, y)
+//@   ensures !(width < 1 || height < 1) ==> forall x int, y int :: widx(r, x, y) && inBM(r, x, y) ==> !mget(r, x, y)
 //@   modifies nothing
 
 //@ func (b *BitMatrix) Get(x int, y int) (r bool)
@@ -307,21 +321,21 @@ package gozxing
 //@   property C16
 //@   requires wfBM(b) && 0 <= x && x < b.width && 0 <= y && y < b.height
 //@   use rowIdx(y, b.height, b.rowSize, x/32)
-//@   ensures forall x2 int, y2 int :: widx(b, x2, y2) && inBM(b, x2, y2) ==> mget(b, x2, y2) == (old(mget(b, x2, y2)) || (x2 == x && y2 == y))
+//@   ensures forall x2 int, y2 int :: widx(b, x2, y2) && winj(b, x2, y2, x, y) && inBM(b, x2, y2) ==> mget(b, x2, y2) == (old(mget(b, x2, y2)) || (x2 == x && y2 == y))
 //@   modifies b.bits[*]
 
 //@ func (b *BitMatrix) Unset(x int, y int)
 //@   property C16
 //@   requires wfBM(b) && 0 <= x && x < b.width && 0 <= y && y < b.height
 //@   use rowIdx(y, b.height, b.rowSize, x/32)
-//@   ensures forall x2 int, y2 int :: widx(b, x2, y2) && inBM(b, x2, y2) ==> mget(b, x2, y2) == (old(mget(b, x2, y2)) && !(x2 == x && y2 == y))
+//@   ensures forall x2 int, y2 int :: widx(b, x2, y2) && winj(b, x2, y2, x, y) && inBM(b, x2, y2) ==> mget(b, x2, y2) == (old(mget(b, x2, y2)) && !(x2 == x && y2 == y))
 //@   modifies b.bits[*]
 
 //@ func (b *BitMatrix) Flip(x int, y int)
 //@   property C16
 //@   requires wfBM(b) && 0 <= x && x < b.width && 0 <= y && y < b.height
 //@   use rowIdx(y, b.height, b.rowSize, x/32)
-//@   ensures forall x2 int, y2 int :: widx(b, x2, y2) && inBM(b, x2, y2) ==> mget(b, x2, y2) == (old(mget(b, x2, y2)) != (x2 == x && y2 == y))
+//@   ensures forall x2 int, y2 int :: widx(b, x2, y2) && winj(b, x2, y2, x, y) && inBM(b, x2, y2) ==> mget(b, x2, y2) == (old(mget(b, x2, y2)) != (x2 == x && y2 == y))
 //@   modifies b.bits[*]
 
 //@ func (b *BitMatrix) Clear()
@@ -333,15 +347,28 @@ package gozxing
 //@   loop 0: invariant forall j int :: 0 <= j && j < i ==> b.bits[j] == 0
 //@   loop 0: decreases max - i
 
+// the last word of row y-1 is word y*rs-1
+//@ lemma rowLast(y int, h int, rs int)
+//@   property C16
+//@   opt nia=on
+//@   requires 1 <= y && y <= h && 1 <= rs
+//@   ensures y*rs - 1 == (y-1)*rs + (rs - 1) && y*rs <= rs*h && 0 <= (y-1)*rs
+// word (y,c) of the matrix
+//@ spec func mword(m *BitMatrix, y int, c int) uint32 = m.bits[y*m.rowSize + c]
+
 //@ func (b *BitMatrix) FlipAll()
 //@   property C16
 //@   requires wfBM(b) && padBM(b)
-//@   ensures padBM(b)
-//@   ensures forall x int, y int :: 0 <= x && x < b.width && 0 <= y && y < b.height ==> mget(b, x, y) == !old(mget(b, x, y))
+//@   ensures forall x int, y int :: widx(b, x, y) && b.width <= x && x < b.rowSize*32 && 0 <= y && y < b.height ==> !mget(b, x, y)
+//@   ensures forall x int, y int :: widx(b, x, y) && 0 <= x && x < b.width && 0 <= y && y < b.height ==> mget(b, x, y) == !old(mget(b, x, y))
 //@   modifies b.bits[*]
 //@   loop 0: invariant 0 <= i && i <= max && max == len(b.bits)
 //@   loop 0: invariant forall j int :: 0 <= j && j < len(b.bits) ==> b.bits[j] == (j < i ? ^old(b.bits[j]) : old(b.bits[j]))
 //@   loop 0: decreases max - i
+//@   loop 1: invariant 1 <= y && y <= b.height + 1 && 0 < shift && shift < 32 && shift == uint(b.width % 32) && mask == lowmask32(shift)
+//@   loop 1: use rowLast(y, b.height, b.rowSize)
+//@   loop 1: invariant forall y2 int, c int :: hint(rowIdx(y2, b.height, b.rowSize, c)) && hint(rowIdxInj(y2, c, y-2, b.rowSize-1, b.rowSize)) && 0 <= y2 && y2 < b.height && 0 <= c && c < b.rowSize ==> mword(b, y2, c) == ((c == b.rowSize - 1 && y2 < y - 1) ? (^old(mword(b, y2, c))) & mask : ^old(mword(b, y2, c)))
+//@   loop 1: decreases b.height + 1 - y
 
 //@ func (b *BitMatrix) GetWidth() (r int)
 //@   property C16
